@@ -161,6 +161,7 @@ static inline size_t ctx_size(int kind)
 struct Stats {
         bool carry_cross = false, cross = false;
         uint64_t total = 0;
+        std::vector<uint8_t> observed; // digest bytes as delivered
 };
 
 static inline bool execute(const Case &c, const Fam &f, pbt::Ctx &ctx, Stats &st)
@@ -229,6 +230,8 @@ static inline bool execute(const Case &c, const Fam &f, pbt::Ctx &ctx, Stats &st
         if (rc) return !failx("rc", "finalize returned " + std::to_string(rc));
         std::string cn = A.check_canaries();
         if (!cn.empty() && failx("canary", cn)) return false;
+        st.observed.assign(dg, dg + 4 * nw);
+        if (f.kind == MH_MURMUR) st.observed.insert(st.observed.end(), mg, mg + 16);
         std::vector<uint32_t> want = R.digest_words();
         if (memcmp(dg, want.data(), 4 * nw)) {
                 if (failx("digest", "multi-hash digest differs from the definition: total " + std::to_string(off) + " bytes in " + std::to_string(c.pieces.size()) +
